@@ -10,15 +10,22 @@ impl BlockTransactionsVerifier {
         transactions: &[core::TransactionView],
     ) -> Status {
         let block_short_ids = block.block_short_ids();
-        let missing_short_ids: Vec<packed::ProposalShortId> = indexes
-            .iter()
-            .filter_map(|index| {
-                block_short_ids
-                    .get(*index as usize)
-                    .expect("should never outbound")
-                    .clone()
-            })
-            .collect();
+        // The indexes were computed from the compact block the peer sent, the pending compact
+        // block may be another peer's (same header, different body): an index can be out of bound.
+        let mut missing_short_ids: Vec<packed::ProposalShortId> = Vec::with_capacity(indexes.len());
+        for index in indexes {
+            match block_short_ids.get(*index as usize) {
+                Some(short_id) => missing_short_ids.extend(short_id.clone()),
+                None => {
+                    return StatusCode::BlockTransactionsLengthIsUnmatchedWithPendingCompactBlock
+                        .with_context(format!(
+                            "Index({}) is out of bound({})",
+                            index,
+                            block_short_ids.len(),
+                        ));
+                }
+            }
+        }
 
         if missing_short_ids.len() != transactions.len() {
             return StatusCode::BlockTransactionsLengthIsUnmatchedWithPendingCompactBlock
